@@ -39,6 +39,11 @@ import (
 // comes later in the log — this includes the program order of every goroutine), ttl-clock:txn-interleaved (the
 // events of one transaction are not contiguous).
 
+// Registration: lib/props.py C04 "streams" gets ('ttlclock', 32) next to ('sched', 200) — every run executes the
+// 16 corpus cases (all 8 modes x mem/file, i.e. contend, busy, sess-commit and sess-abort twice each) plus the generated
+// ones; the violations of this file carry Property "C04", those of ttlclock.go "C19". What is trusted for C04 here: the
+// real Go scheduler picks the interleavings (no schedule control as in `sched`); acknowledgement = the call returned nil.
+
 type tcCounterSpec struct {
 	h   lungo.Handle
 	doc bson.D
